@@ -165,9 +165,13 @@ def random_history(rng, kind, nvals, nops, zero_tok=0, two=True, maxlen=40, bad=
         elif r < 0.78:
             L.append("mem %d %d" % (o, v))
         elif r < 0.81:
-            if rng.random() < 0.35:
-                L.append("sortby %d gt" % o)                 # sort_by with the opposite comparison: descending
+            rr = rng.random()
+            if rr < 0.3:
+                L.append("sortby %d %s" % (o, rng.choice(["gt", "ge"])))      # sort_by with the opposite comparison (strict or not): descending
                 if kd != "List": q.sort(reverse=True)
+            elif rr < 0.45:
+                L.append("sortby %d le" % o)                 # a comparison that also holds for equal elements
+                if kd != "List": q.sort()
             else:
                 L.append("sort %d" % o)
                 if kd != "List": q.sort()
